@@ -149,6 +149,17 @@ fn corpus() -> Vec<LinearModel> {
         m.set_objective(vec![1.0, 1.0], OptimizationType::Max);
         out.push(m);
     }
+    // F70 / F19c: microlp answers this continuous model (one free variable, one bounded above only) with NaN values
+    // through the MILP entry point and with Infeasible through the real one; the optimum is -9.5
+    let mut m = LinearModel::new();
+    m.add_variable("x", free); m.add_variable("y", VariableType::Real(f64::NEG_INFINITY, 1.0));
+    m.add_constraint(vec![3.0, -2.0], Comparison::LessOrEqual, 2.0);
+    m.add_constraint(vec![0.5, 1.0], Comparison::LessOrEqual, 2.0);
+    m.add_constraint(vec![-1.0, 3.0], Comparison::Equal, 3.0);
+    m.add_constraint(vec![2.0, 1.0], Comparison::LessOrEqual, 3.0);
+    m.set_objective(vec![-1.0, 3.0], OptimizationType::Min);
+    let (o, t, _, c, v, d) = m.into_parts();
+    out.push(LinearModel::new_from_parts(o, t, -12.5, c, v, d));
     // models without variables: decided by their constant rows (true and false ones, each relation)
     for (cmp, rhs) in [(Comparison::GreaterOrEqual, 1.0), (Comparison::GreaterOrEqual, -1.0), (Comparison::LessOrEqual, 1.0), (Comparison::LessOrEqual, -1.0), (Comparison::Equal, 0.0), (Comparison::Equal, 1.0)] {
         let mut m = LinearModel::new();
